@@ -82,8 +82,8 @@ CLAUSES = {
     100: "C07: add_frame panicked", 101: "C07: accepted a frame that is not the exact next one", 102: "C07: rejected the exact next frame", 103: "C07: reported reason does not apply",
     104: "C07: state / accounting / build differs from the reference", 109: "C07: surplus observation", 110: "C07: reassembly started by a non-start frame", 111: "C07: initial state wrong", 112: "C07: start frame rejected", 113: "C07: wrong rejection of a non-start frame", 114: "C07: new() panicked",
     120: "C06: a poll panicked / hung / over-read", 121: "C06: the second probe packet was not delivered intact as the last result", 122: "C06: before it: neither probe 1 intact nor an error (altered / merged delivery)",
-    130: "C13: spurious error / panic", 131: "C13: delivered sequence differs from the packets sent", 132: "C13: polls do not end with 'nothing received'", 133: "C13: the sender failed",
-    140: "C19: heap exceeds 96 + 40 * frames held (held, announced, heap, tokens left)", 141: "C19: heap above the absolute bound, or not released after a delivery / reassembly error (class, heap, tokens left)", 142: "C19: heap grew without bound inside a poll that never returned (peak, before, tokens left)",
+    130: "C13: spurious error / panic", 131: "C13: delivered sequence differs from the packets sent", 132: "C13: polls do not end with 'nothing received'", 133: "C13: the sender failed", 134: "C13: a poll reported 'nothing received' although the device had not answered 'no data yet' (complete data was waiting)",
+    140: "C19: heap exceeds 96 + 40 * frames announced for the packet in flight (held, announced, heap, tokens left)", 141: "C19: heap above the absolute bound, or not released after a delivery / reassembly error (class, heap, tokens left)", 142: "C19: heap grew without bound inside a poll that never returned (peak, before, tokens left)",
     150: "C14/C15: see property (C14: USART bytes differ; C15: tick dispatch differs from the model on the same table)", 151: "C14: CAN frames handed over / result differ", 152: "C14: bytes on the link are not a prefix of the frames' bytes",
     153: "C14: success reported although bytes are missing", 154: "C14: flush failure swallowed", 155: "C14: serial result differs", 156: "C14: observation malformed",
     160: "C16: send_packet routing differs", 170: "C17: id of a registered handler handed out again", 171: "C17: registration failed", 172: "C17: remove result wrong", 173: "C17: delivery does not reach exactly the live handlers",
